@@ -10,6 +10,7 @@ import (
 	"errors"
 	"flag"
 	"fmt"
+	"math"
 	"os"
 	"time"
 
@@ -30,6 +31,8 @@ func ctx() context.Context {
 	c, _ := context.WithTimeout(context.Background(), 10*time.Second)
 	return c
 }
+
+var diskUsed map[uint64]bool
 
 func main() {
 	nhx.Quiet()
@@ -80,6 +83,9 @@ func main() {
 		r := hx.Rng(*seed, s)
 		h := nhx.NewHost(2)
 		nshards := 1 + r.Intn(4)
+		if s == 0 {
+			diskUsed = map[uint64]bool{}
+		}
 		type hosted struct {
 			id  uint64
 			typ int // 1 regular 2 concurrent 3 on-disk
@@ -88,6 +94,19 @@ func main() {
 		ids := r.Perm(6)
 		for i := 0; i < nshards; i++ {
 			hs = append(hs, hosted{uint64(1000*(s+1) + 10*(ids[i]+1)), 1 + r.Intn(3)}) // ids unique per NodeHost: the injected test file system is shared by the process
+		}
+		// ... except for in-memory machines: a few shard ids (0 and the largest among them) come back on later NodeHosts of
+		// this process, with another in-memory type or not hosted at all, so that nothing learnt about one NodeHost may be
+		// served to another
+		shared := []uint64{0, 7, math.MaxUint64}
+		for _, k := range r.Perm(len(shared))[:r.Intn(3)] {
+			typ := 1 + r.Intn(2)
+			if !diskUsed[shared[k]] && r.Intn(2) == 0 {
+				// once per process and id also as an on-disk machine (its directory in the shared test file system is used once)
+				typ = 3
+				diskUsed[shared[k]] = true
+			}
+			hs = append(hs, hosted{shared[k], typ})
 		}
 		for _, x := range hs {
 			cfg := config.Config{ReplicaID: 1, ShardID: x.id, ElectionRTT: 10, HeartbeatRTT: 1}
@@ -134,6 +153,9 @@ func main() {
 		}
 		for q := 0; q < 14; q++ {
 			sid := uint64(1000*(s+1) + 10*(1+r.Intn(6)))
+			if r.Intn(3) == 0 {
+				sid = shared[r.Intn(len(shared))]
+			}
 			op := map[string]interface{}{"op": "get", "sid": sid}
 			ops = append(ops, op)
 			var ps *mr.Session
